@@ -394,6 +394,8 @@ pub fn case_strategy() -> BoxedStrategy<AiCase> {
         1 => Just("k = 5 = -3".to_string()),
         1 => Just("ends with ideographic space\u{3000}".to_string()),
         1 => Just("ends with nbsp\u{a0}".to_string()),
+        // text that looks like the placeholders of a prompt template
+        1 => Just("f\"CONDITION: {condition} / BLOCK: {block}\" {} {0} %s ${content}".to_string()),
     ];
     let block = (text.clone(), proptest::collection::vec(text, 0..5), proptest::option::weighted(0.3, 0u8..5), 0u8..20, proptest::bool::weighted(0.2), 0u8..3, proptest::bool::weighted(0.15), proptest::bool::weighted(0.25), proptest::bool::weighted(0.2)).prop_map(
         |(condition, lines, pattern, reply, warning, file, multiline_condition, plain_before, twin)| {
@@ -453,7 +455,7 @@ pub fn extract_cases() -> Vec<AiCase> {
 
 pub fn run(run: &mut Run) {
     run.enumerate("extracts", extract_cases(), Some("every pattern of the key-pattern family x 6 multi-line contents x {Python, JavaScript} host"), check);
-    run.rule = "enumerated extracts: one check-ai block per (pattern of the key-pattern family, one of 6 multi-line contents in which only a non-last line or only the last line could match a line-anchored reading, Python or JavaScript host): the request must carry the first match in the content taken as ONE text. random: 1..8 check-ai blocks spread over up to 3 files (Python `#` comments, or a JavaScript block comment with the condition spread over two lines), conditions and contents over printable ASCII incl. quotes, backslashes, braces, escapes, plus Unicode/NBSP/emoji, optional check-ai-pattern from the key-pattern family, plain blocks without check-ai in front of 25% of them, 20% twins of the previous block (same condition, content, pattern and reply: one request each all the same), severity warning in 20%, scan or new-file diff mode, two keys and two model names; in half of the cases the OpenAI SDK's own OPENAI_API_KEY / OPENAI_BASE_URL / OPENAI_ORG_ID variables are set to foreign values; reply per block from 20 texts (OK, ok, Ok., OK., oK, ` OK`, `OK `, OKAY, OK.., multi-line, quotes/backslashes/tab, Unicode, empty, Greek / full-width / digit-zero / zero-width look-alikes of OK); in 45% one fault from 14 kinds (no key, empty key, connection refused, 400/401 JSON, 404/400 plain, 200 invalid JSON, 200 without choices, empty choices, null content, closed mid-body, closed at once, empty body) injected on the k-th arriving request. A recording fake endpoint is the observer. Non-trivial = a fault case, or >= 2 blocks with content that JSON must escape.".into();
+    run.rule = "enumerated extracts: one check-ai block per (pattern of the key-pattern family, one of 6 multi-line contents in which only a non-last line or only the last line could match a line-anchored reading, Python or JavaScript host): the request must carry the first match in the content taken as ONE text. random: 1..8 check-ai blocks spread over up to 3 files (Python `#` comments, or a JavaScript block comment with the condition spread over two lines), conditions and contents over printable ASCII incl. quotes, backslashes, braces, escapes, plus Unicode/NBSP/emoji and template-placeholder look-alikes (`{condition}`, `{block}`, `{}`, `%s`), optional check-ai-pattern from the key-pattern family, plain blocks without check-ai in front of 25% of them, 20% twins of the previous block (same condition, content, pattern and reply: one request each all the same), severity warning in 20%, scan or new-file diff mode, two keys and two model names; in half of the cases the OpenAI SDK's own OPENAI_API_KEY / OPENAI_BASE_URL / OPENAI_ORG_ID variables are set to foreign values; reply per block from 20 texts (OK, ok, Ok., OK., oK, ` OK`, `OK `, OKAY, OK.., multi-line, quotes/backslashes/tab, Unicode, empty, Greek / full-width / digit-zero / zero-width look-alikes of OK); in 45% one fault from 14 kinds (no key, empty key, connection refused, 400/401 JSON, 404/400 plain, 200 invalid JSON, 200 without choices, empty choices, null content, closed mid-body, closed at once, empty body) injected on the k-th arriving request. A recording fake endpoint is the observer. Non-trivial = a fault case, or >= 2 blocks with content that JSON must escape.".into();
     run.assumptions = vec![
         "429 and 5xx are not injected: the client library retries them with back-off for minutes and the statement does not list them".into(),
         "which block the k-th arriving request belongs to is not controlled".into(),
